@@ -619,6 +619,8 @@ func (o vfC04Op) String() string {
 		return fmt.Sprintf("fresh(%+d)", o.Off)
 	case "replay":
 		return fmt.Sprintf("replay(#%d)", o.Idx)
+	case "twin":
+		return fmt.Sprintf("damagedCopyThenGenuine(%+d)", o.Off)
 	}
 	return fmt.Sprintf("concurrentSame(%d,%+d)", o.K, o.Off)
 }
@@ -626,9 +628,10 @@ func (o vfC04Op) String() string {
 func TestVerifC04History(t *testing.T) {
 	vfSetup(t)
 	c := ev.For("C04")
-	c.Rule("history: per case one server factory and 2-12 operations fresh(hour offset -3..+3) / replay(of any earlier handshake) / concurrentSame(k copies of one fresh handshake on k connections at once), crafted by the reference client; oracle = set model: fresh(o) is accepted iff |o| <= 1 and then the reply verifies under the hour the client stamped and data flows both ways; every replay and every out-of-window handshake is treated exactly like invalid input (silent, seeded close time); fresh ones after replays are still accepted; of k concurrent copies exactly one is accepted; non-trivial = history with a replay of an accepted handshake and a non-zero hour offset; fingerprint = op list")
+	c.Rule("history: per case one server factory and 2-12 operations fresh(hour offset -3..+3) / replay(of any earlier handshake) / concurrentSame(k copies of one fresh handshake on k connections at once) / damagedCopyThenGenuine(a copy of a fresh handshake with one padding bit altered — same mark and MAC bytes — is submitted and refused, then the handshake itself, which nothing has accepted yet, must be accepted), crafted by the reference client; oracle = set model: fresh(o) is accepted iff |o| <= 1 and then the reply verifies under the hour the client stamped and data flows both ways; every replay and every out-of-window handshake is treated exactly like invalid input (silent, seeded close time); fresh ones after replays are still accepted; of k concurrent copies exactly one is accepted; non-trivial = history with a replay of an accepted handshake and a non-zero hour offset; fingerprint = op list")
 	c.Assume("the 3 h replay TTL cannot be waited for: expiry is decided by C11 on caller-supplied time; here the clock is the real (monotone) clock and cases that straddle an hour change are discarded")
 	c.Floor("history-with-concurrent/history", 0.10)
+	c.Floor("history-with-damaged-copy-first/history", 0.10)
 	rapid.Check(t, func(rt *rapid.T) {
 		rk := rapid.Uint64().Draw(rt, "randKey")
 		defer vfRandSeedKey(rk)()
@@ -766,11 +769,28 @@ func TestVerifC04History(t *testing.T) {
 			return false
 		}
 		nops := rapid.IntRange(2, 12).Draw(rt, "ops")
-		hasReplayOfAccepted, hasOffset, hasConcurrent := false, false, false
+		hasReplayOfAccepted, hasOffset, hasConcurrent, hasTwin := false, false, false, false
 		_ = sessionTraffic
 		for i := 0; i < nops; i++ {
-			k := rapid.IntRange(0, 9).Draw(rt, "op")
+			k := rapid.IntRange(0, 10).Draw(rt, "op")
 			switch {
+			case k == 10:
+				// a damaged copy of a handshake reaches the bridge before the handshake itself (same
+				// mark and MAC bytes, one padding byte altered: the MAC does not verify); nothing has been
+				// accepted yet, so the genuine one is still fresh
+				off := int64(rapid.IntRange(-1, 1).Draw(rt, "hourOffT"))
+				op := vfC04Op{Kind: "twin", Off: off}
+				ops = append(ops, op)
+				hasTwin = true
+				cl := mkClient(off)
+				hs := append([]byte(nil), cl.Handshake()...)
+				twin := append([]byte(nil), hs...)
+				pos := refobfs4.ReprLen + rapid.IntRange(0, len(hs)-refobfs4.ReprLen-refobfs4.MarkLen-refobfs4.MacLen-1).Draw(rt, "twinPos")
+				twin[pos] ^= byte(1 << uint(rapid.IntRange(0, 7).Draw(rt, "twinBit")))
+				submit(twin, nil, false, fmt.Sprintf("damaged copy (padding byte %d altered) of a handshake not submitted yet", pos))
+				all = append(all, sent{twin, false, off})
+				acc := submit(hs, cl, true, op.String()+": the genuine handshake after its damaged copy was refused")
+				all = append(all, sent{hs, acc, off})
 			case k < 5 || len(all) == 0:
 				off := int64(rapid.IntRange(-3, 3).Draw(rt, "hourOff"))
 				if rapid.IntRange(0, 2).Draw(rt, "offZero") == 0 {
@@ -862,6 +882,9 @@ func TestVerifC04History(t *testing.T) {
 		}
 		if hasReplayOfAccepted {
 			cls = append(cls, "history-with-replay-of-accepted")
+		}
+		if hasTwin {
+			cls = append(cls, "history-with-damaged-copy-first")
 		}
 		c.Case(ev.Hash(strings.Join(os, ",")), hasReplayOfAccepted && hasOffset, cls, func() any { return map[string]any{"ops": os, "seed": ev.Hex(br.Seed)} })
 	})
